@@ -457,10 +457,10 @@ func DisturbPool() {
 	for _, k := range []int{2, 3, 5, 9, 40} {
 		x := rawFinite(false, strings.Repeat("7", (k+3)*DW), 5, uint((k+3)*DW), 0)
 		y := rawFinite(false, strings.Repeat("3", k*DW), 2, uint(k*DW), 0)
-		new(decimal.Decimal).SetPrec(uint(4 * DW)).Quo(x, y)
-		new(decimal.Decimal).SetPrec(uint(2 * k * DW)).Mul(x, y)
+		new(decimal.Decimal).SetPrec(uint(4*DW)).Quo(x, y)
+		new(decimal.Decimal).SetPrec(uint(2*k*DW)).Mul(x, y)
 	}
 	x := rawFinite(false, strings.Repeat("8", 45*DW), 5, uint(45*DW), 0)
-	new(decimal.Decimal).SetPrec(90 * DW).Mul(x, x)
+	new(decimal.Decimal).SetPrec(90*DW).Mul(x, x)
 	new(decimal.Decimal).SetPrec(60).Sqrt(x)
 }
